@@ -267,17 +267,56 @@ fn main() {
                         .args(["--shard", &i.to_string(), "--of", &n.to_string()])
                         .arg("--progress")
                         .arg(&prog)
-                        .stdout(Stdio::piped())
-                        .stderr(Stdio::piped())
+                        // files, not pipes: the driver polls for exit and must not have to drain
+                        .stdout(std::fs::File::create(scratch.join(format!("stdout.{i}"))).expect("shard stdout"))
+                        .stderr(std::fs::File::create(scratch.join(format!("stderr.{i}"))).expect("shard stderr"))
                         .spawn()
                         .expect("spawn shard");
                     (i, prog, child)
                 })
                 .collect();
+            // wall-clock watchdog (generous; its firing is inconclusive, never a violation)
+            let limit = std::time::Duration::from_secs(
+                std::env::var("VERIF_SHARD_TIMEOUT_S").ok().and_then(|s| s.parse().ok()).unwrap_or(tier.pick(900, 3 * 3600)),
+            );
             let mut results = Vec::new();
+            let mut children = children;
+            let deadline = Instant::now() + limit;
+            let mut timed_out = std::collections::BTreeSet::new();
+            loop {
+                let mut running = 0;
+                for (i, _, child) in children.iter_mut() {
+                    if timed_out.contains(i) {
+                        continue;
+                    }
+                    if let Ok(None) = child.try_wait() {
+                        running += 1;
+                        if Instant::now() > deadline {
+                            let _ = child.kill();
+                            timed_out.insert(*i);
+                        }
+                    }
+                }
+                if running == 0 {
+                    break;
+                }
+                std::thread::sleep(std::time::Duration::from_millis(50));
+            }
             for (i, prog, child) in children {
-                let out = child.wait_with_output().expect("wait shard");
-                let stdout = String::from_utf8_lossy(&out.stdout);
+                if timed_out.contains(&i) {
+                    let case = std::fs::read_to_string(&prog).unwrap_or_default();
+                    results.push(Err(format!("watchdog: shard {i} exceeded {}s during `{case}`", limit.as_secs())));
+                    continue;
+                }
+                let mut child = child;
+                let status = child.wait().expect("wait shard");
+                struct Out {
+                    status: std::process::ExitStatus,
+                    stderr: Vec<u8>,
+                }
+                let out = Out { status, stderr: std::fs::read(scratch.join(format!("stderr.{i}"))).unwrap_or_default() };
+                let stdout_bytes = std::fs::read(scratch.join(format!("stdout.{i}"))).unwrap_or_default();
+                let stdout = String::from_utf8_lossy(&stdout_bytes);
                 let parsed = stdout
                     .lines()
                     .find_map(|l| l.strip_prefix(RESULT_MARK))
